@@ -145,6 +145,10 @@ def run(scheme, flags, actions=('step',)):
             it.call(s.part2, ['@r'])
         elif a == 'sync':
             it.call(s.sync, ['@r'])
+        elif a.startswith('set:'):
+            # the user (or a collision / particle insertion) raises an option member between two calls: 'set:<member path>=<int>'
+            k, v = a[4:].split('=')
+            it.flags[k] = int(v)
         else:
             raise ValueError(a)
         slices.append(it.trace[start:])
